@@ -357,3 +357,37 @@ def corpus(vf):
     add('curve_functional', curve_functional)
     add('curlcurl', curlcurl)
     return progs
+
+
+# ------------------------------------------------------------------------------------------
+def make_diff_case(vf, seed):
+    """random differentiable scalar expression (for the differentiation-rule obligation).
+    -> dict(V, e, k, parametric, desc)"""
+    rng = random.Random(seed * 7919 + 13)
+    d = rng.choice([1, 2, 2, 3])
+    parametric = rng.random() < 0.5
+    V = vf.VForm(d)
+    u, v = V.basisfuns()
+    f = V.input('f'); b = V.input('b', shape=(d,)); c = V.parameter('c')
+    leaves = [lambda: u, lambda: v, lambda: f, lambda: b[rng.randrange(d)], lambda: c,
+              lambda: vf.as_expr(rng.choice([2, 0.5, -1, 3, 1, 0]))]
+    # first-derivative leaves of the matching kind (so that second derivatives are exercised step by step)
+    for x in (u, v, f):
+        for m in range(d):
+            leaves.append(lambda x=x, m=m: vf.Dx(x, m, parametric=parametric))
+    B = V.let('B', f * u + c)           # expression variable
+    leaves.append(lambda: B)
+
+    def tree(depth):
+        if depth <= 0: return rng.choice(leaves)()
+        op = rng.choice(['+', '-', '*', '*', '/', 'neg', 'leaf'])
+        if op == 'leaf': return rng.choice(leaves)()
+        if op == 'neg': return -tree(depth - 1)
+        a, b2 = tree(depth - 1), tree(depth - 1)
+        if op == '+': return a + b2
+        if op == '-': return a - b2
+        if op == '*': return a * b2
+        return a / (b2 * b2 + 1)
+    e = tree(rng.choice([1, 2, 2, 3]))
+    k = rng.randrange(d)
+    return {'V': V, 'e': e, 'k': k, 'parametric': parametric, 'desc': 'd=%d k=%d parametric=%s e=%s' % (d, k, parametric, str(e)[:160])}
